@@ -134,10 +134,10 @@ class AbstractWalkModelDiGraph(ABC):
             self._check_valid_subset_constraints()
 
         self.subset_constraints_coverage = subset_constraints_coverage
-        if len(subset_constraints) > 0:
-            if not (0 < self.subset_constraints_coverage <= 1):     # (written so that NaN is rejected too)
-                utils.logger.error(f"{__name__}: subset_constraints_coverage must be in the range (0, 1]")
-                raise ValueError("subset_constraints_coverage must be in the range (0, 1]")
+        # (checked also without constraints of the caller: safe sequences turned into subset constraints use the same fraction)
+        if not (0 < self.subset_constraints_coverage <= 1):     # (written so that NaN is rejected too)
+            utils.logger.error(f"{__name__}: subset_constraints_coverage must be in the range (0, 1]")
+            raise ValueError("subset_constraints_coverage must be in the range (0, 1]")
 
         # (a fresh dictionary per model: a mutable default argument would be shared by all models that do not pass their own)
         self.solve_statistics = solve_statistics if solve_statistics is not None else {}
